@@ -93,3 +93,20 @@ fn c20_no_live_match_reports_nowhere() {
     kani::cover!(!m1 && !m2, "no live barrier matches");
 }
 }
+
+// @verif id=C20 tier=thorough role=registry_first_match timeout=900 desc=middle-dropped
+crate::verif_proof! { unwind = 18;
+fn c20_middle_barrier_dropped() {
+    let (m1, m2, _m3) = registry([false, true, false]);
+    assert!(!m2);
+    kani::cover!(m1, "first barrier still wins");
+}
+}
+// @verif id=C20 tier=thorough role=registry_first_match timeout=900 desc=first-two-dropped
+crate::verif_proof! { unwind = 18;
+fn c20_only_the_catch_all_is_left() {
+    let (m1, m2, m3) = registry([true, true, false]);
+    assert!(!m1 && !m2);
+    kani::cover!(m3, "the catch-all barrier receives the trigger");
+}
+}
